@@ -109,8 +109,8 @@ func c19Table(allowed []string, event string, positions []string, actionTime int
 		ID:   "T",
 		Meta: pt.TableMeta{ActionTime: actionTime, TableMaxSeatCount: 9, Rule: "default"},
 		State: &pt.TableState{
-			Status:            pt.TableStateStatus_TableGamePlaying,
-			GameCount:         1,
+			Status:    pt.TableStateStatus_TableGamePlaying,
+			GameCount: 1,
 			// the table's live level has moved on since the hand opened: the posted sizes are the hand's own
 			BlindState:        &pt.TableBlindState{Level: 2, Ante: 2 * c19Ante, Dealer: 2 * c19Dealer, SB: 2 * c19SB, BB: 2 * c19BB},
 			PlayerStates:      []*pt.TablePlayerState{{PlayerID: "me", Seat: 0, IsIn: true, IsParticipated: true, Bankroll: 1000}, {PlayerID: "other", Seat: 1, IsIn: true, IsParticipated: true, Bankroll: 1000}},
@@ -122,11 +122,11 @@ func c19Table(allowed []string, event string, positions []string, actionTime int
 }
 
 type c19Combo struct {
-	mask     int
-	event    string
-	pos      []string
-	status   string
-	at       int
+	mask   int
+	event  string
+	pos    []string
+	status string
+	at     int
 }
 
 func (k c19Combo) allowed() []string {
@@ -297,6 +297,14 @@ func c19Real(c *h.Ctx) {
 	}
 	var pending []pend
 	last := map[string]int64{}
+	jr := rand.New(rand.NewSource(r.Int63())) // guarded by mu (used on the engine's callback goroutines)
+	var pokes int64
+	other := ""
+	for _, pl := range cfg.Players {
+		if pl.ID != me {
+			other = pl.ID
+		}
+	}
 	fan := func(t *pt.Table) {
 		if act != nil {
 			act.GetTable().UpdateTableState(t)
@@ -352,7 +360,17 @@ func c19Real(c *h.Ctx) {
 		}
 		mu.Lock()
 		pending = append(pending, pend{k, h.Mono(), n, want})
+		poke := jr.Intn(2) == 0
+		after := time.Duration(100+jr.Intn(750)) * time.Millisecond
 		mu.Unlock()
+		// a table-level event while the silent player's thinking time runs (somebody else tops up one chip): the table
+		// is published again with the same hand state; the pending automatic action must still come
+		if poke && other != "" {
+			time.AfterFunc(after, func() {
+				s.TE.PlayerRedeemChips(pt.JoinPlayer{PlayerID: other, RedeemChips: 1})
+				atomic.AddInt64(&pokes, 1)
+			})
+		}
 	}
 	a := actor.NewActor()
 	a.SetAdapter(sp)
@@ -446,6 +464,10 @@ func c19Real(c *h.Ctx) {
 		if exp.act == "" {
 			continue
 		}
+		if len(mine) == 0 && qi+1 < len(reqs) && time.Duration(reqs[qi+1].delivered-q.delivered) > 12*time.Second {
+			c.Violate("C19/no-automatic-action/hand-moved-on-by-the-engines-own-timeout", fmt.Sprintf("silent player %s (%s) was asked (%v at %s, thinking time 1 s); nothing was submitted for it and the next request only came %v later", me, status, q.k.allowed(), q.k.event, time.Duration(reqs[qi+1].delivered-q.delivered)), w)
+			return
+		}
 		if len(mine) == 0 {
 			if qi == len(reqs)-1 && hd.Settled == nil {
 				c.Violate("C19/no-automatic-action", fmt.Sprintf("silent player %s (%s) was asked (%v at %s) and nothing was submitted for it; the hand is stuck", me, status, q.k.allowed(), q.k.event), w)
@@ -481,6 +503,10 @@ func c19Real(c *h.Ctx) {
 		return
 	}
 	c.Feature("real-table:" + status)
+	if atomic.LoadInt64(&pokes) > 0 {
+		c.Feature("real:table-level-event-during-thinking-time")
+		c.Count("real_pokes_during_thinking_time", atomic.LoadInt64(&pokes))
+	}
 	c.Nontrivial()
 	c.FP("real", fmt.Sprintf("%+v", cfg), me, status)
 	acts := []string{}
@@ -503,7 +529,7 @@ func init() {
 			return map[string]int{"quick": 100, "thorough": 1700}[tier]
 		},
 		RequiredFeatures: func(string) []string {
-			return []string{"decision-table-part-0/8", "decision-table-part-7/8", "real-table:running", "real-table:idle", "real-table:suspended", "real:ready", "real:fold", "real:check", "real:pay", "real:level-raised-mid-hand"}
+			return []string{"decision-table-part-0/8", "decision-table-part-7/8", "real-table:running", "real-table:idle", "real-table:suspended", "real:ready", "real:fold", "real:check", "real:pay", "real:level-raised-mid-hand", "real:table-level-event-during-thinking-time"}
 		},
 		Post: func(tier string, rs []*h.CaseResult) map[string]interface{} {
 			var n int64
